@@ -18,10 +18,10 @@ type Proc struct {
 	Methods  map[string]*ssa.Function
 	TableFld string // the session table field (map[string]*session)
 	Session  *types.Named
-	MuKey    string         // "Service.<mutex field>"
-	Lookup   *ssa.Function  // helper reading the table and returning (*session, error)
-	NotFound *ssa.Global    // sentinel returned by the lookup
-	Verify   *ssa.Function  // contribution check
+	MuKey    string        // "Service.<mutex field>"
+	Lookup   *ssa.Function // helper reading the table and returning (*session, error)
+	NotFound *ssa.Global   // sentinel returned by the lookup
+	Verify   *ssa.Function // contribution check
 	ok       bool
 }
 
